@@ -19,7 +19,7 @@ from core import Stream
 # Flip to True once fixes/C14-kwonly-defaults.diff is applied to /repo (see design/C14.md, "After the
 # fix"): the driver then answers with the repaired model of lean/PV/C14/Fixed.lean, the full-strength
 # theorems PV.C14.Fixed.* become the claim, and the two known findings are no longer expected.
-FIX_APPLIED = os.environ.get("PV_C14_FIX_APPLIED", "0") == "1"
+FIX_APPLIED = os.environ.get("PV_C14_FIX_APPLIED", "1") == "1"
 if FIX_APPLIED:
     os.environ["PV_C14_MODEL"] = "fixed"        # inherited by lean/Drv/C14.lean
 else:
@@ -55,6 +55,7 @@ THEOREMS = [
     "PV.C14.Fixed.intoArguments_denote",
     "PV.C14.Fixed.toPython_denotes",
     "PV.C14.Fixed.positional_unchanged",
+    "PV.C14.Fixed.intoArguments_no_underflow",
 ]
 TRUSTED = [
     "Lean 4.33.0 kernel; axioms limited to propext, Classical.choice, Quot.sound",
@@ -80,7 +81,7 @@ PARTIAL = [
     "about the proposed code, not the code in /repo, until the fix is applied and Model.lean is switched",
 ]
 if FIX_APPLIED:
-    THEOREMS = _FIXED_THEOREMS + ["PV.C14.intoArguments_no_underflow", "PV.C14.splitKwonly_spec"]
+    THEOREMS = _FIXED_THEOREMS + ["PV.C14.splitKwonly_spec"]
     PARTIAL = _PARTIAL_IF_FIXED
 READY = True
 TECHNIQUE = ("Lean 4 theorems over a hand-written list-level model of the conversion functions + exhaustive small-scope "
@@ -437,6 +438,17 @@ def _random_sig(rng, maxn):
     return a
 
 
+def _parsed_oracle(ctx):
+    """oracle of the parser-fed streams; counts the requests the parser could not supply (not judged)"""
+    ctx.extra.setdefault("parse_errors_not_judged", 0)
+
+    def f(req, out):
+        if out == "parse-error":
+            ctx.extra["parse_errors_not_judged"] += 1
+        return oracle(req, out)
+    return f
+
+
 def _nonempty(req):
     return any(c.isdigit() for c in req.split()[-1])
 
@@ -486,7 +498,7 @@ def streams(ctx):
     psigs = [show_sig(a) for a in shapes(m, anns=("odd",))]
     out.append(Stream(f"parsed-signatures<={m}-per-kind",
                       [f"{op} p {s}" for s in psigs for op in ("rt", "topy")], kind="exhaustive", exhaustive=True,
-                      compare=False, nontrivial=_nonempty,
+                      compare=False, nontrivial=_nonempty, oracle=_parsed_oracle(ctx),
                       note="def f(<sig>): pass parsed by rustpython_parser, conversions run on the parsed Arguments"))
 
     # 5. random larger signatures
@@ -509,7 +521,8 @@ def streams(ctx):
         s = show_sig(_random_sig(rng, rng.choice([3, 6, 10])))
         reqs.append(f"rt p {s}")
         reqs.append(f"topy p {s}")
-    out.append(Stream("random-parsed", reqs, kind="random", compare=False, nontrivial=_nonempty))
+    out.append(Stream("random-parsed", reqs, kind="random", compare=False, nontrivial=_nonempty,
+                      oracle=_parsed_oracle(ctx)))
 
     # 6. malformed Python-style lists (more defaults than parameters): outside the quantifier; the only
     #    demand is that no parameter is silently lost and the process survives
